@@ -1496,7 +1496,20 @@ func (x *Evaluator) evalCompare(v *ssa.BinOp, e *env, c *evalCtx) Val {
 				return BoolV{Desc: "len(" + t.String() + ")==0"}
 			}
 		}
-		return BoolV{Desc: asTmpl(l).String() + v.Op.String() + asTmpl(r).String()}
+		// two texts compared where at least one is a value the method was handed: a condition on
+		// the text of that value
+		data := ""
+		for _, side := range []Val{l, r} {
+			if hs := asTmpl(side).Holes(); len(hs) > 0 && data == "" {
+				for _, h := range hs {
+					if !strings.HasPrefix(h.Origin, "field:") {
+						data = h.Origin
+						break
+					}
+				}
+			}
+		}
+		return BoolV{Desc: asTmpl(l).String() + v.Op.String() + asTmpl(r).String(), Data: data}
 	case BoolV:
 		rv, _ := r.(BoolV)
 		if lv.Const != nil && rv.Const != nil {
